@@ -47,8 +47,13 @@ theorem outputs_length (step : Sess → SOp → Sess × SOut) (s : Sess) (ops : 
 theorem stepRO_durable (s : Sess) (op : SOp) : (stepRO s op).1.durable = s.durable := by
   cases op <;> rfl
 
-theorem stepRO_txn (s : Sess) (op : SOp) (h : s.txn = []) : (stepRO s op).1.txn = [] := by
-  cases op <;> simp [stepRO, h]
+/-- raw SQL statements are the only way anything enters the connection's transaction -/
+def isRawSql : SOp → Bool
+  | .rawSql _ => true
+  | _ => false
+
+theorem stepRO_txn (s : Sess) (op : SOp) (hop : isRawSql op = false) (h : s.txn = []) : (stepRO s op).1.txn = [] := by
+  cases op <;> simp [stepRO, h, isRawSql] at hop ⊢
 
 /-- 3a. `commit` raises and changes nothing. -/
 theorem commit_raises (s : Sess) : stepRO s .commit = (s, .raised) := rfl
@@ -64,11 +69,22 @@ theorem durable_invariant (ops : List SOp) (s : Sess) : (runOps stepRO s ops).1.
   | nil => rfl
   | cons op ops ih => rw [runOps_cons]; simp only []; rw [ih, stepRO_durable]
 
-/-- 2. Nothing is ever flushed into a transaction. -/
-theorem txn_stays_empty (ops : List SOp) (s : Sess) (h : s.txn = []) : (runOps stepRO s ops).1.txn = [] := by
+/-- 2. Nothing is ever flushed into a transaction (the unit of work never reaches the connection). -/
+theorem txn_stays_empty (ops : List SOp) (s : Sess) (hraw : ∀ op ∈ ops, isRawSql op = false) (h : s.txn = []) :
+    (runOps stepRO s ops).1.txn = [] := by
   induction ops generalizing s with
   | nil => exact h
-  | cons op ops ih => rw [runOps_cons]; exact ih _ (stepRO_txn s op h)
+  | cons op ops ih =>
+    rw [runOps_cons]
+    exact ih _ (fun o ho => hraw o (List.mem_cons_of_mem _ ho)) (stepRO_txn s op (hraw op (List.mem_cons_self ..)) h)
+
+/-- 2b. Even statements executed directly on the connection (`rawSql`) are never made durable: they sit in the open
+transaction, `commit` refuses, and `rollback` / `close` discard them.  (`durable_invariant` above holds for *every* history,
+raw SQL included.) -/
+theorem raw_sql_discarded (s : Sess) (c : Change) :
+    (runOps stepRO s [.rawSql c, .commit, .close]).1 = { durable := s.durable, txn := [], pending := [] } ∧
+    (runOps stepRO s [.rawSql c, .commit, .close]).2 = [.ok, .raised, .ok] := by
+  simp [runOps, stepRO]
 
 /-- 4a. A query sees exactly the durable rows (pending changes are not visible: autoflush is a no-op). -/
 theorem query_sees_durable (s : Sess) (h : s.txn = []) : (stepRO s .query).2 = .rows s.durable.length := by
@@ -82,7 +98,7 @@ theorem stepRO_rows (s : Sess) (op : SOp) (h : s.txn = []) (n : Nat) (hn : (step
 
 /-- 4b. Along any history from a state with an empty transaction, every `.rows n` output has
 `n = s.durable.length`. -/
-theorem history_rows (ops : List SOp) (s : Sess) (h : s.txn = []) :
+theorem history_rows (ops : List SOp) (s : Sess) (hraw : ∀ op ∈ ops, isRawSql op = false) (h : s.txn = []) :
     ∀ n, SOut.rows n ∈ (runOps stepRO s ops).2 → n = s.durable.length := by
   induction ops generalizing s with
   | nil => intro n hn; simp [runOps_nil] at hn
@@ -91,7 +107,7 @@ theorem history_rows (ops : List SOp) (s : Sess) (h : s.txn = []) :
     rw [runOps_cons] at hn
     rcases List.mem_cons.1 hn with e | hn
     · exact stepRO_rows s op h n e.symm
-    · have := ih _ (stepRO_txn s op h) n hn
+    · have := ih _ (fun o ho => hraw o (List.mem_cons_of_mem _ ho)) (stepRO_txn s op (hraw op (List.mem_cons_self ..)) h) n hn
       rwa [stepRO_durable] at this
 
 /-- The pending changes are exactly the `change` operations since the last rollback/close — in
